@@ -32,6 +32,9 @@ def main():
     wt, n, sid = sys.argv[1], sys.argv[2], sys.argv[3]
     confirm = '--no-confirm' not in sys.argv
     out = os.path.join(wt, 'OUT', n)
+    stored = os.path.join(ROOT, 'seeded', sid)
+    if not os.path.isdir(out) and os.path.isdir(stored):
+        out = stored
     patch = open(os.path.join(out, 'patch.diff')).read()
     demo = open(os.path.join(out, 'demo_test.rs')).read()
     meta = json.load(open(os.path.join(out, 'meta.json')))
@@ -78,10 +81,11 @@ def main():
     sh('rsync -a --delete --exclude target --exclude .git /repo/ %s/' % scratch)
     sh('rm -rf %s/.git' % scratch)
     sh('git init -q && git add -A >/dev/null 2>&1', scratch)
-    rc, o = sh('git apply %s' % os.path.join(out, 'patch.diff'), scratch)
+    pfile = os.path.join(out, 'patch.rebased.diff') if os.path.exists(os.path.join(out, 'patch.rebased.diff')) else os.path.join(out, 'patch.diff')
+    rc, o = sh('git apply %s' % pfile, scratch)
     applied = rc == 0
     if not applied:
-        rc, o = sh('patch -p1 --fuzz=3 < %s' % os.path.join(out, 'patch.diff'), scratch)
+        rc, o = sh('patch -p1 --fuzz=3 < %s' % pfile, scratch)
         applied = rc == 0
         ran.append('git apply failed on the current tree (moved by fix commits); patch --fuzz=3 rc=%d: %s' % (rc, o[-200:]))
     alarms = {}
